@@ -30,7 +30,7 @@
    md = MSync is Gen.gen_decode, md = MAsync is GenAsync.gen_decode_async (projection lemmas in Proofs/OwnP.v);
    the only clause that adds to [leaked] is the element loop of the sync list arm.
    Model only, no proofs. *)
-From PVGen Require Export Gen GenAsync.
+From PVGen Require Export Gen GenKeep GenAsync.
 Open Scope Z_scope.
 
 (* ---------- the inventory this model accounts for ---------- *)
@@ -46,7 +46,9 @@ Definition inventory_sites : nat * nat * nat * nat * nat :=
    string / binary (FastStr, Bytes: slices of the input; String, Vec<u8>: heap), every container, and every
    struct / union / typedef holding one.  Fuel exhaustion = a by-value cycle of declarations (length S + 1
    nested references must repeat one): pilota-build breaks it with Box (BoxedPlugin), a heap allocation. *)
-Fixpoint owns_heap_n (S : schema) (fuel : nat) (t : ty) {struct fuel} : bool :=
+(* [kb] = the build retains unknown fields (keep_unknown_fields): a struct / union compiled with retention carries a
+   LinkedBytes (`_unknown_fields` member, `_UnknownFields` variant), which needs Drop whatever the declared fields are *)
+Fixpoint owns_heap_n (kb : bool) (S : schema) (fuel : nat) (t : ty) {struct fuel} : bool :=
   match fuel with
   | O => true
   | Datatypes.S f =>
@@ -54,16 +56,17 @@ Fixpoint owns_heap_n (S : schema) (fuel : nat) (t : ty) {struct fuel} : bool :=
       | TyString | TyBinary | TyList _ | TySet _ | TyMap _ _ => true
       | TyRef n =>
           match lookup S n with
-          | Some (DStruct fs _ _) => existsb (fun fd => owns_heap_n S f (f_ty fd)) fs
-          | Some (DUnion vs _ _) => existsb (fun q => owns_heap_n S f (snd q)) vs
-          | Some (DTypedef t') => owns_heap_n S f t'
+          | Some (DStruct fs keep _) => (kb && keep) || existsb (fun fd => owns_heap_n kb S f (f_ty fd)) fs
+          | Some (DUnion vs _ keep) => (kb && keep) || existsb (fun q => owns_heap_n kb S f (snd q)) vs
+          | Some (DTypedef t') => owns_heap_n kb S f t'
           | Some (DEnum _) => false
           | None => false
           end
       | _ => false
       end
   end.
-Definition owns_heap (S : schema) (t : ty) : bool := owns_heap_n S (Datatypes.S (length S)) t.
+Definition owns_heap (S : schema) (t : ty) : bool := owns_heap_n false S (Datatypes.S (length S)) t.
+Definition owns_heap_keep (S : schema) (t : ty) : bool := owns_heap_n true S (Datatypes.S (length S)) t.
 
 (* value level (for the correspondence run only; no theorem mentions it): does THIS value hold an allocation / a
    reference into the input buffer FOR SURE, whatever representation the IDL annotations chose?
@@ -281,6 +284,154 @@ Fixpoint own_decode (md : dmode) (S : schema) (p : pk) (fuel : nat) (t : ty) (s 
       end
   end.
 
+(* ---------- the sync templates of a keep_unknown_fields build (GenKeep.v) ---------- *)
+(* `_unknown_fields` (a LinkedBytes), the chunks returned by get_bytes and `ret` are owned locals: dropped on failure.
+   The list arm is the same raw-pointer arm; in such a build more element types need Drop (owns_heap_keep). *)
+Section OwnKeepLoops.
+  Variable S : schema.
+  Variable p : pk.
+  Variable fuel_skip : nat.
+  Variable rec : ty -> rst -> own (gval * rst).
+
+  Fixpoint own_fields_keep (m : nat) (fs : list field) (is_arg : bool) (vars : list (option gval)) (num : Z)
+           (unk : list (list byte)) (s : rst) {struct m} : own (list (option gval) * list (list byte) * rst) :=
+    match m with
+    | O => lift (Err EOutOfFuel)
+    | Datatypes.S m' =>
+        if is_arg && (num =? 0) then
+          let rem := Z.of_nat (length (rbuf s)) in
+          if rem <? 2 then lift (Panic SOverflow)
+          else lift (let* (chunk, s) := r_take (Z.to_nat (rem - 2)) s in Ok (vars, unk ++ [chunk], s))
+        else
+          let s0 := s in
+          let+ (h, s) := lift (r_field_begin p s) in
+          if ttype_eqb (fst h) TStop then
+            let+ (_, s) := lift (r_field_stop_len p s) in lift (Ok (vars, unk, s))
+          else
+            let+ (n1, s) := lift (r_field_begin_len p (fst h) (snd h) s) in
+            let+ (r, s) :=
+              match match_field S fs O (snd h) (fst h) with
+              | Some (i, f) =>
+                  let+ (x, s) := rec (f_ty f) s in lift (Ok ((set_nth i (Some x) vars, num - 1, unk), s))
+              | None =>
+                  let+ (n2, s) := lift (skip p fuel_skip (fst h) s) in
+                  lift (Ok ((vars, num, unk ++ [firstn (Z.to_nat (n1 + n2)) (rbuf s0)]), s))
+              end in
+            let+ (_, s) := lift (r_field_end_len p s) in
+            own_fields_keep m' fs is_arg (fst (fst r)) (snd (fst r)) (snd r) s
+    end.
+
+  Fixpoint own_variants_keep (m : nat) (vs : list (Z * ty)) (ret : uret) (s : rst) {struct m} : own (uret * rst) :=
+    match m with
+    | O => lift (Err EOutOfFuel)
+    | Datatypes.S m' =>
+        let s0 := s in
+        let+ (h, s) := lift (r_field_begin p s) in
+        if ttype_eqb (fst h) TStop then
+          let+ (_, s) := lift (r_field_stop_len p s) in lift (Ok (ret, s))
+        else
+          let+ (n1, s) := lift (r_field_begin_len p (fst h) (snd h) s) in
+          let known := match snd h with
+                       | Some id => match find_variant vs id with
+                                    | Some vt => if is_void (resolve S vt) then None else Some (id, vt)
+                                    | None => None
+                                    end
+                       | None => None
+                       end in
+          match known with
+          | Some (id, vt) =>
+              match ret with
+              | UNone => let+ (x, s) := rec vt s in own_variants_keep m' vs (UKnown id x) s
+              | _ => lift (Err EInvalidData)
+              end
+          | None =>
+              let+ (n2, s) := lift (skip p fuel_skip (fst h) s) in
+              match ret with
+              | UNone => own_variants_keep m' vs (UUnknown (firstn (Z.to_nat (n1 + n2)) (rbuf s0))) s
+              | _ => lift (Err EInvalidData)
+              end
+          end
+    end.
+End OwnKeepLoops.
+
+Fixpoint own_decode_keep (S : schema) (p : pk) (fuel : nat) (t : ty) (s : rst) {struct fuel} : own (gval * rst) :=
+  match fuel with
+  | O => lift (Err EOutOfFuel)
+  | Datatypes.S f =>
+      match resolve S t with
+      | TyBool => lift (let* (b, s) := r_bool p s in Ok (GBool b, s))
+      | TyI8 => lift (let* (z, s) := r_i8 s in Ok (GI8 z, s))
+      | TyI16 => lift (let* (z, s) := r_i16 p s in Ok (GI16 z, s))
+      | TyI32 => lift (let* (z, s) := r_i32 p s in Ok (GI32 z, s))
+      | TyI64 => lift (let* (z, s) := r_i64 p s in Ok (GI64 z, s))
+      | TyDouble => lift (let* (z, s) := r_double p s in Ok (GDouble z, s))
+      | TyString | TyBinary => lift (let* (l, s) := r_bytes p s in Ok (GBytes l, s))
+      | TyUuid => lift (let* (l, s) := r_uuid s in Ok (GUuid l, s))
+      | TyVoid =>
+          lift (let* (_, s) := r_struct_begin p s in
+                let* (_, s) := r_struct_end p s in Ok (GVoid, s))
+      | TyList et =>
+          let+ (h, s) := lift (r_coll_begin p s) in
+          let+ (l, s) := own_elems (own_decode_keep S p f) (owns_heap_keep S et) (Datatypes.S f) et (snd h) s [] in
+          lift (Ok (GList l, s))
+      | TySet et =>
+          let+ (h, s) := lift (r_coll_begin p s) in
+          let+ (l, s) := own_elems (own_decode_keep S p f) false (Datatypes.S f) et (snd h) s [] in
+          lift (Ok (GSet l, s))
+      | TyMap kt vt =>
+          let+ (h, s) := lift (r_map_begin p s) in
+          let+ (l, s) := own_pairs (own_decode_keep S p f) (Datatypes.S f) kt vt (snd h) s [] in
+          lift (Ok (GMap l, s))
+      | TyRef n =>
+          match lookup S n with
+          | Some (DEnum _) => lift (let* (z, s) := r_i32 p s in Ok (GEnum z, s))
+          | Some (DStruct fs true is_arg) =>
+              let+ (_, s) := lift (r_struct_begin p s) in
+              let+ (r, s) := own_fields_keep S p f (own_decode_keep S p f) (Datatypes.S f) fs is_arg (map init_var fs)
+                                             (Z.of_nat (length fs)) [] s in
+              let+ (_, s) := lift (r_struct_end p s) in
+              let+ out := lift (finish_fields fs (fst r)) in
+              lift (Ok (GStruct out (snd r), s))
+          | Some (DStruct fs false _) =>
+              let+ (_, s) := lift (r_struct_begin p s) in
+              let+ (vars, s) := own_fields MSync S p f (own_decode_keep S p f) (Datatypes.S f) fs (map init_var fs) s in
+              let+ (_, s) := lift (r_struct_end p s) in
+              let+ out := lift (finish_fields fs vars) in
+              lift (Ok (GStruct out [], s))
+          | Some (DUnion vs void_ok true) =>
+              let+ (_, s) := lift (r_struct_begin p s) in
+              let+ (ret, s) := own_variants_keep S p f (own_decode_keep S p f) (Datatypes.S f) vs UNone s in
+              let+ (_, s) := lift (r_struct_end p s) in
+              lift (match ret with
+                    | UKnown id x => Ok (GUnion id x, s)
+                    | UUnknown c => Ok (GUnionUnknown c, s)
+                    | UNone =>
+                        if void_ok then
+                          match vs with (id0, _) :: _ => Ok (GUnion id0 GVoid, s) | [] => Err EInvalidData end
+                        else Err EInvalidData
+                    end)
+          | Some (DUnion vs void_ok false) =>
+              let+ (_, s) := lift (r_struct_begin p s) in
+              let+ (ret, s) := own_variants MSync S p f (own_decode_keep S p f) (Datatypes.S f) vs None s in
+              let+ (_, s) := lift (r_struct_end p s) in
+              lift (match ret with
+                    | Some (id, x) => Ok (GUnion id x, s)
+                    | None =>
+                        if void_ok then
+                          match vs with (id0, _) :: _ => Ok (GUnion id0 GVoid, s) | [] => Err EInvalidData end
+                        else Err EInvalidData
+                    end)
+          | Some (DTypedef _) => lift (Err EOther)
+          | None => lift (Err EOther)
+          end
+      end
+  end.
+
+Definition own_decode_keep_top (S : schema) (p : pk) (t : ty) (l : list byte)
+  : res (gval * list byte) * list gval :=
+  let r := own_decode_keep S p (length l + 80) t (mkS l r0) in
+  ((let* (v, s) := fst r in Ok (v, rbuf s)), snd r).
+
 (* top-level entry (fresh protocol object over the bytes): outcome as gen_decode_top / gen_decode_async_top, and
    the values that are still alive after the error has been dropped *)
 Definition own_decode_top (md : dmode) (S : schema) (p : pk) (t : ty) (l : list byte)
@@ -302,6 +453,9 @@ Inductive reach (S : schema) (t : ty) : ty -> Prop :=
 (* no list whose element type needs Drop is reachable from [t] *)
 Definition no_heap_list (S : schema) (t : ty) : Prop :=
   forall et, reach S t (TyList et) -> owns_heap S et = false.
+
+Definition no_heap_list_keep (S : schema) (t : ty) : Prop :=
+  forall et, reach S t (TyList et) -> owns_heap_keep S et = false.
 
 (* a decidable sufficient condition: no such list occurs anywhere in [t] or in the schema *)
 Fixpoint nhl_ty (S : schema) (t : ty) : bool :=
